@@ -1140,20 +1140,20 @@ Example C03_tucker_conj_example :
 Proof. vm_compute. reflexivity. Qed.
 
 (* ------------------------------------------------------------------ PARAFAC2 with complex projections *)
-(* _validate_parafac2_tensor tests dot(transpose(P), P) = I.  On a carrier without conjugation that is 'orthonormal columns'
-   (C03_validate_parafac2_iff); on complex projections it is not: a GENUINE DEFECT (known finding parafac2_complex_projections, candidate repair
-   build/fix_candidates/C03_parafac2_complex_projections: conj(transpose(P))).  validate_parafac2_h is the repaired validator (P^H P = I): it is
-   the current one whenever the conjugation is the identity, so nothing changes for real projections; the Example shows both failures of the
-   current test at the Gaussian integers: the unitary [i] rejected, the column (1, 1, i) of Hermitian length sqrt 3 accepted *)
+(* _validate_parafac2_tensor tests dot(conj(transpose(P)), P) = I since /repo 0c112da (before: dot(transpose(P), P) = I, which on a carrier
+   without conjugation is 'orthonormal columns' (C03_validate_parafac2_iff) but on complex projections is not - the former genuine defect
+   parafac2_complex_projections, repaired by 0c112da).  validate_parafac2_h Op cj is the current validator (P^H P = I; the harness reads from the
+   CURRENT source which of the two tests it has and runs the corresponding model); with the identity as conjugation it IS validate_parafac2, so
+   every theorem about validate_parafac2 is a theorem about the current code on real data.  The Example keeps both failures of the OLD test at
+   the Gaussian integers: the unitary [i] rejected, the column (1, 1, i) of Hermitian length sqrt 3 accepted - and what the current one says *)
 Theorem C03_validate_parafac2_h_real : forall (F : Type) (Op : fops F) (w : option (tensor F)) (fs ps : list (tensor F)),
   validate_parafac2_h Op (fun x => x) w fs ps = validate_parafac2 Op w fs ps.
 Proof. exact @validate_parafac2_h_real. Qed.
 Print Assumptions C03_validate_parafac2_h_real.
-Theorem C03_parafac2_complex_projections_refuted :
+Example C03_before_0c112da_parafac2_complex_projections :
   let g (a b : Z) : Tenalg.GI := (a, b) in
   let A := mk [1; 1] [g 2 0]%Z in let B := mk [1; 1] [g 3 0]%Z in let C := mk [2; 1] [g 1 0; g 2 0]%Z in
   let Pu := mk [1; 1] [g 0 1]%Z in let Pn := mk [3; 1] [g 1 0; g 1 0; g 0 1]%Z in
   validate_parafac2 GIops None [A; B; C] [Pu] = Err /\ validate_parafac2_h GIops gconj None [A; B; C] [Pu] = Ok ([[1; 2]], 1) /\
   validate_parafac2 GIops None [A; B; C] [Pn] = Ok ([[3; 2]], 1) /\ validate_parafac2_h GIops gconj None [A; B; C] [Pn] = Err.
 Proof. exact parafac2_complex_projection_examples. Qed.
-Print Assumptions C03_parafac2_complex_projections_refuted.
